@@ -33,6 +33,13 @@ func NewFileDriver(f *filesystem.Htfs) *Fs {
 func (ftp *Fs) Init() {
 }
 
+// forSession returns a driver on the same filesystem root with a working
+// directory of its own (where this driver's is now).
+func (ftp *Fs) forSession() *Fs {
+	fs := *ftp.Htfs
+	return &Fs{&fs}
+}
+
 func (ftp *Fs) Stat(path string) (os.FileInfo, error) {
 	p := ftp.RealPath(path)
 
